@@ -99,7 +99,7 @@ def run(prop, tier, verdict):
         log('  DRIFT %s: %s' % (k, v[:1]))
     if ndrift * 2 > len(scen):
         raise Broken('more than half of the hub replays drifted')
-    acc, rej, _ = vlib.validate_traces('PHub', 'PHub.cfg', trfile, workdir=wd, max_reject=10)
+    acc, rej, _ = vlib.validate_traces('PHub', 'PHub.cfg', trfile, workdir=wd, env={'VERIF_PROP': prop}, max_reject=10)
     by_id = {s['id']: s for s in scen}
     lines_by_t = {}
     for l in open(trfile):
